@@ -28,6 +28,7 @@ import (
 	"regexp"
 	"strconv"
 	"strings"
+	"sync"
 
 	"github.com/compose-spec/compose-go/v2/consts"
 	"github.com/compose-spec/compose-go/v2/errdefs"
@@ -88,7 +89,12 @@ type Options struct {
 
 var versionWarning []string
 
+// versionWarningMu guards versionWarning: loads may run concurrently
+var versionWarningMu sync.Mutex
+
 func (o *Options) warnObsoleteVersion(file string) {
+	versionWarningMu.Lock()
+	defer versionWarningMu.Unlock()
 	if !slices.Contains(versionWarning, file) {
 		logrus.Warning(fmt.Sprintf("%s: the attribute `version` is obsolete, it will be ignored, please remove it to avoid potential confusion", file))
 	}
